@@ -406,10 +406,15 @@ func (enc Encryptor) encryptZeroSkFromC1(sk *SecretKey, ct Element[ring.Poly], c
 	ringQ.MulCoeffsMontgomery(c1, sk.Value.Q, c0)
 	ringQ.Neg(c0, c0)
 
+	// c1 is uniform, hence also uniform when read as being in the Montgomery domain:
+	// for a target flagged IsMontgomery only the error has to be switched to it.
 	if ct.IsNTT {
 		e := enc.buffQP[0].Q
 		enc.xeSampler.AtLevel(levelQ).Read(e)
 		ringQ.NTT(e, e)
+		if ct.IsMontgomery {
+			ringQ.MForm(e, e)
+		}
 		ringQ.Add(c0, e, c0)
 	} else {
 		ringQ.INTT(c0, c0)
@@ -417,7 +422,14 @@ func (enc Encryptor) encryptZeroSkFromC1(sk *SecretKey, ct Element[ring.Poly], c
 			ringQ.INTT(c1, c1)
 		}
 
-		enc.xeSampler.AtLevel(levelQ).ReadAndAdd(c0)
+		if ct.IsMontgomery {
+			e := enc.buffQP[0].Q
+			enc.xeSampler.AtLevel(levelQ).Read(e)
+			ringQ.MForm(e, e)
+			ringQ.Add(c0, e, c0)
+		} else {
+			enc.xeSampler.AtLevel(levelQ).ReadAndAdd(c0)
+		}
 	}
 
 	return
